@@ -257,7 +257,12 @@ def run(ctx):
     enc = [n for n in walk_local(wr.node) if isinstance(n, ast.Call) and isinstance(n.func, ast.Name) and n.func.id == "write_data"]
     inc = [n for n in walk_local(wr.node) if isinstance(n, ast.AugAssign) and norm(n.target) == "self.block_count"]
     dcall = [n for n in walk_local(wr.node) if isinstance(n, ast.Call) and norm(n.func) == "self.dump"]
-    if len(enc) != 1 or len(inc) != 1 or len(dcall) != 1:
+    direct = [n for n in walk_local(wr.node) if isinstance(n, ast.Call) and not (isinstance(n.func, ast.Name) and n.func.id == "write_data") and n.args and norm(n.args[0]) == "self.io" and len(n.args) >= 3]
+    if not enc and direct and len(inc) == 1:
+        # the record is handed to something else than write_data together with the pending-block encoder: a table writer
+        # picked once, which skips what write_data does before the table (logical-type preparation, by-name schemas)
+        ctx.violation("C04.R3", "write: the record is encoded through write_data", wr.where(direct[0]), f"Writer.write: {norm(direct[0])[:90]}", "the record is encoded by a function chosen outside write_data: the preparation of logical values (dates, decimals, uuids, timestamps) and the resolution of a by-name top-level schema that write_data performs are bypassed, so a file whose top-level schema carries a logical type cannot be written")
+    elif len(enc) != 1 or len(inc) != 1 or len(dcall) != 1:
         ctx.unrecognised("C04.R3", "Writer.write", wr.where(), "expected one write_data call, one block_count increment and one dump call")
     else:
         en, ic, dc = cfg.node_of(enc[0]), cfg.node_of(inc[0]), cfg.node_of(dcall[0])
@@ -266,7 +271,7 @@ def run(ctx):
         g = [gt for gt in guard_texts(cfg, dc) if "sync_interval" in gt[0]]
         okg = len(g) == 1 and g[0][1] == "true" and g[0][0] in cmp_texts("self.io._fo.tell()", ">=", "self.sync_interval")
         ctx.check("C04.R3", "write: dump when pending bytes >= sync_interval", okg, wr.where(dcall[0]), f"Writer.write: dump under {g}", "a block must be emitted as soon as the pending buffer reaches sync_interval bytes")
-    fl = W.methods["flush"]
+    fl = p.find_method(W, "flush")
     flush_rule(ctx, a, fl, "C04.R3")
     wf = p.func("_write_py:writer")
     cfg = cfg_of(wf)
@@ -352,9 +357,24 @@ def _match_decompress(k, ret):
 
 def flush_rule(ctx, a, fl, rule):
     """flush: dump iff pending bytes or pending records; the stream flush is reached on every normal path"""
+    if fl is None:
+        ctx.unrecognised(rule, "Writer.flush", "", "the container writer has no flush method of its own or inherited")
+        return
     cfg = cfg_of(fl)
     dcall = [n for n in walk_local(fl.node) if isinstance(n, ast.Call) and norm(n.func) == "self.dump"]
     sflush = [n for n in walk_local(fl.node) if isinstance(n, ast.Call) and isinstance(n.func, ast.Attribute) and n.func.attr == "flush" and norm(n.func.value) != "self"]
+    # the flush that counts is the output stream's: `<encoder>.flush()` flushes it only if the binary encoder's method does
+    enc = a.p.cls("io.binary_encoder:BinaryEncoder") if hasattr(a.p, "cls") else None
+    enc_flushes = False
+    try:
+        ef = enc.methods.get("flush") if enc is not None else None
+        enc_flushes = ef is not None and any(isinstance(n, ast.Call) and isinstance(n.func, ast.Attribute) and n.func.attr == "flush" and norm(n.func.value) in ("self._fo", "self.fo") for n in walk_local(ef.node))
+    except Exception:
+        enc_flushes = False
+    real = [n for n in sflush if norm(n.func.value) in OUTPUT_RECV or (norm(n.func.value) in ("self.encoder", "encoder") and enc_flushes)]
+    if sflush and not real:
+        ctx.violation(rule, "flush: the output stream's flush() is reached on every normal path", fl.where(sflush[0]), f"{fl.qualname}: {norm(sflush[0])} does not flush the output stream", "the only flush called is the encoder's, which does nothing for the binary encoder: after flush() the block is still in the stream's buffer, a reader of the file sees a file without it")
+        return
     if len(dcall) != 1 or len(sflush) != 1:
         ctx.unrecognised(rule, "Writer.flush", fl.where(), "expected one dump call and one stream flush")
         return
